@@ -386,7 +386,7 @@ def totals(res: Dict[str, Any]) -> Dict[str, Dict[str, int]]:
 TAINT = re.compile('zzq|onzz|zzent|zzattr')
 
 
-def oracle_project(job: Dict[str, Any], res: Dict[str, Any], base: Dict[str, Any], strict: bool) -> Optional[str]:
+def oracle_project(job: Dict[str, Any], res: Dict[str, Any], base: Dict[str, Any], strict: bool, depr_site: bool = False) -> Optional[str]:
     """The property on one whole run, observed from the written pages:
       * every page is well-formed XML once characters illegal in XML are set aside;
       * no element, attribute or entity carries one of the marker names that only payloads hold (zzq, onzz, zzent, zzattr);
@@ -419,7 +419,9 @@ def oracle_project(job: Dict[str, Any], res: Dict[str, Any], base: Dict[str, Any
         for kind in ('elems', 'attrs', 'entities'):
             # <wbr> break opportunities are inserted into names at dots / case changes: their number follows the module name
             diff = {k: (a[kind].get(k, 0), b[kind].get(k, 0)) for k in set(a[kind]) | set(b[kind])
-                    if a[kind].get(k, 0) != b[kind].get(k, 0) and k != 'wbr'}
+                    if a[kind].get(k, 0) != b[kind].get(k, 0) and k != 'wbr'
+                    # docutils wraps the words of an inline literal in <span class="pre">: their number follows the text
+                    and not (depr_site and k in ('span', 'span@class'))}
             if diff:
                 return '%s differ from the harmless project (payload, harmless): %s' % (kind, dict(sorted(diff.items())[:8]))
     return None
@@ -453,11 +455,11 @@ class Check(PropertyCheck):
                  'characters texts and attribute values hold (C10_flatten_reads_back, C10_no_markup_from_text); html2stan(encode t) '
                  'is one text node except for FORM FEED / NO-BREAK SPACE (C10_html2stan_roundtrip_partial/_refuted); docutils encode/attval are inverted and start tags read back (C10_docutils_escape, C10_starttag_safe_partial); '
                  'validate_identifier accepts only dotted identifiers (C10_identifier_guard); which non-XML characters survive '
-                 '(C10_ctrl_chars_partial); the reST generated for @deprecated stays one line only under a guard (C10_deprecate_one_line_partial/_refuted). Tied to /repo by regenerated escape tables and byte-for-byte correspondence; whole-run '
+                 '(C10_ctrl_chars_partial); the reST generated for @deprecated is one body line and the replacement sits in one literal for EVERY decorator argument (C10_deprecate_one_line, C10_deprecate_literal; the old clean-up: _old_refuted). Tied to /repo by regenerated escape tables and byte-for-byte correspondence; whole-run '
                  'stream parses every page of tiny adversarial projects in every docformat.'),
         'note': ('Trusted: Coq kernel, extraction + OCaml driver, Python harness, expat as reference parser. Modelled not verified: '
                  'twisted template engine, docutils parser and writer visit methods, page templates (sampled by the whole-run stream). '
-                 'Known findings: @deprecated replacement text leaves its reST literal (line separators other than \\n, back-quotes, edge white space) and becomes markup; FORM FEED and NO-BREAK SPACE make the re-parse path fail (rendering dropped, pages stay well-formed).'),
+                 'Known findings: FORM FEED and NO-BREAK SPACE make the re-parse path fail (rendering dropped, pages stay well-formed). Fixed in /repo (0e1361d): @deprecated replacement text leaving its reST literal.'),
         'technique': 'Coq proof (XML reader inverts the escapers; induction on stan trees) + regenerated tables + exhaustive/random correspondence + whole-run differential oracle',
     }
     assumptions = ['tag and attribute names of stan trees are ASCII XML names without colon (they come from templates and code, not from source text)',
@@ -608,11 +610,15 @@ class Check(PropertyCheck):
             out.append([9, self.adv(4, ['a', '.', '_', '1', '-', ' ', '<', '\xe9', '\n', '\xb7', '\u0301', 'Z'])])
         rp = [None, 'new', 'a.b', 'x x', '<script>alert(1)</script>', 'a\nb', '', ' ', 'a``b', '`', '``', '\\', 'a\\', '*x*', 'x_', '|x|', 'http://x/<b>',
               'a\rb', 'a\r\r   .. raw:: html\r\r      <script>alert(1)</script>\r\r   x', 'a\u2028b', 'a\x0cb', 'a\x1cb',
-              'a`` `t <javascript:alert(1)>`__ ``b', 'a.1', '1', 'a-b', '&amp;', ']]>']
+              'a`` `t <javascript:alert(1)>`__ ``b', 'a.1', '1', 'a-b', '&amp;', ']]>',
+              ' javascript:alert(1)//', 'x\n\n.. raw:: html\n\n   <script>alert(1)</script>',
+              'x\n\n.. raw:: html\n\n   <zzq onzz="1"></zzq>\n\ny', 'x\n\n   .. raw:: html\n\n      <script>alert(1)</script>\n\n   y',
+              'x\n\n.. note:: n', 'x\n\n* item', 'x\n\n   quoted', 'x\n\ny', '\n\n.. raw:: html\n\n   <b>x</b>', 'x\r\n\r\n.. raw:: html\r\n\r\n   <b>x</b>',
+              'x\u2028\u2028.. raw:: html\u2028\u2028   <b>x</b>', 'x\n\n.. image:: javascript:alert(1)']
         for r in rp:
             out.append([10, ['f', 'pkg', '1.2.3', [] if r is None else [r]]])
         for _ in range(n):
-            r = self.adv(5, FRAGS + ['`', '``', '*', '_', '|', 'new', '.'])
+            r = self.adv(5, FRAGS + ['`', '``', '*', '_', '|', 'new', '.', '\n\n', '\n\n', '.. raw:: html', '   ', '<b>x</b>', '.. note:: n'])
             out.append([10, [self.rng.choice(['f', 'g\xe9', '_h']), self.rng.choice(['pkg', 'a.b']), '1.2.3', [r]]])
         return out
 
@@ -627,8 +633,25 @@ class Check(PropertyCheck):
         self._caps = {}
         out += self.check_units()
         out += self.check_projects()
+        out = self.most_telling(out)
         self.stats["distinct_nontrivial"] = len(self.nontrivial)
         return out
+
+    @staticmethod
+    def most_telling(out: List[Violation]) -> List[Violation]:
+        """The driver reports the three shortest failing inputs. Of the decorator-argument failures keep the two that show
+        the most (an injected script / marker element / hyperlink rather than a mere extra paragraph), so that a whole page
+        with the injected element is among the reported ones as well."""
+        depr = [v for v in out if v.kind == 'oracle' and isinstance(v.case, list) and v.case and v.case[0] == 10]
+        if len(depr) <= 2:
+            return out
+
+        def rank(v: Violation) -> Any:
+            w = v.what
+            sev = 0 if ("'script'" in w or "'zzq'" in w) else 1 if "'a'" in w else 2
+            return (sev, len(json.dumps(v.case)))
+        keep = sorted(depr, key=rank)[:2]
+        return [v for v in out if v not in depr or v in keep]
 
     def viol(self, out: List[Violation], kind: str, what: str, case: Any, expected: Any = None, observed: Any = None) -> None:
         # at most 6 per kind of message and per kind of case, so that one (possibly known) class cannot hide another
@@ -914,10 +937,16 @@ class Check(PropertyCheck):
                 if s.startswith('doc') or s == 'attr_doc':
                     pl[s] = '<script>alert(1)</script>&lt;]]>-->"\'&nbsp;\x01'
             jobs.append({'kind': 'wild', 'fmt': fmt, 'payloads': pl})
-        # the known class, end to end: a decorator argument that leaves its reST literal
-        pl = self.benign('restructuredtext')
-        pl['depr'] = 'a\r\r   .. raw:: html\r\r      <script>alert(1)</script>\r\r   x'
-        jobs.append({'kind': 'strict', 'fmt': 'restructuredtext', 'payloads': pl, 'site': 'depr'})
+        # the decorator-argument site, end to end: texts that would leave their reST literal if the clean-up of
+        # extensions.deprecate were weaker (line separators, blank line + explicit markup, back-quotes, edge white space)
+        for depr in ['a\r\r   .. raw:: html\r\r      <script>alert(1)</script>\r\r   x',
+                     'x\n\n.. raw:: html\n\n   <script>alert(1)</script>',
+                     'x\n\n.. raw:: html\n\n   <zzq onzz="1"></zzq>\n\ny',
+                     'x\n\n   .. raw:: html\n\n      <zzq onzz="1"></zzq>\n\n   y',
+                     ' javascript:alert(1)//', 'a`` `t <javascript:alert(1)>`__ ``b']:
+            pl = self.benign('restructuredtext')
+            pl['depr'] = depr
+            jobs.append({'kind': 'strict', 'fmt': 'restructuredtext', 'payloads': pl, 'site': 'depr'})
         return jobs
 
     def check_projects(self, n_per_format: Optional[int] = None) -> List[Violation]:
@@ -933,13 +962,14 @@ class Check(PropertyCheck):
         self.stats['pages_parsed'] = sum(len(r['pages']) for r in res)
         self.stats['illegal_chars_set_aside'] = sum(p['illegal'] for r in res for p in r['pages'].values())
         for j, spec, r in zip(jobs, specs, res):
-            msg = oracle_project(spec, r, base[j['fmt']], j['kind'] == 'strict')
+            msg = oracle_project(spec, r, base[j['fmt']], j['kind'] == 'strict', j.get('site') == 'depr')
             self.count('project_' + j['fmt'])
             self.count('project_' + j['kind'])
             if j['kind'] != 'benign':
                 self.nontrivial.add(json.dumps(j['payloads'], sort_keys=True))
             if msg:
-                self.viol(out, 'oracle', msg, {'project': spec, 'payloads': j['payloads'], 'docformat': j['fmt'], 'strict': j['kind'] == 'strict'},
+                self.viol(out, 'oracle', msg, {'project': spec, 'payloads': j['payloads'], 'docformat': j['fmt'], 'strict': j['kind'] == 'strict',
+                           'depr_site': j.get('site') == 'depr'},
                           observed={k: v for k, v in r.items() if k != 'pages'})
         if specs:
             self.sample({'project_files': list(specs[1]['files'].keys()), 'payloads': jobs[1]['payloads']})
@@ -1024,7 +1054,7 @@ class Check(PropertyCheck):
             spec = case['project']
             bspec = project(case['docformat'], self.benign(case['docformat'], with_depr=case['payloads'].get('depr') is not None))
             r, b = lib.run_impl_worker('c10_project.py', [spec, bspec])
-            msg = oracle_project(spec, r, b, bool(case.get('strict')))
+            msg = oracle_project(spec, r, b, bool(case.get('strict')), bool(case.get('depr_site')))
             print('project :', json.dumps(case['payloads'])[:1500])
             print('docformat:', case['docformat'])
             for name, page in sorted(r['pages'].items()):
